@@ -140,6 +140,32 @@ async fn client(
     }
 }
 
+/// The expiry group has no writer: K exists with a deadline, the clock only moves forward. Whoever has seen K gone
+/// (after the deadline) has seen the truth for good: no operation invoked after that reply may see K again.
+fn presence_monotone(h: &[Single]) -> bool {
+    let gone = |s: &Single| -> Option<bool> {
+        let name = String::from_utf8_lossy(&s.cmd[0]).to_ascii_uppercase();
+        match name.as_str() {
+            "EXISTS" => Some(s.reply == ":0"),
+            "TTL" | "PTTL" => Some(s.reply == ":-2"),
+            "GET" => Some(s.reply == "$nil" || s.reply == "nil" || s.reply.starts_with("$-1") || s.reply == "(nil)"),
+            "TYPE" => Some(s.reply == "+none"),
+            _ => None,
+        }
+    };
+    for a in h {
+        if gone(a) != Some(true) {
+            continue;
+        }
+        for b in h {
+            if precedes(a, b) && gone(b) == Some(false) {
+                return false;
+            }
+        }
+    }
+    true
+}
+
 /// a must precede b in any linearization
 fn precedes(a: &Single, b: &Single) -> bool {
     if a.client == b.client {
@@ -222,6 +248,9 @@ struct Scenario {
     stall: bool,
     /// home shard of key K (usize::MAX: whatever shard "key0" lives on)
     home: usize,
+    /// true: K is created with a 1 s TTL before the clients start, the node's clock may jump 2 s once at any point, and
+    /// a further task runs evict_expired_all_shards(); the history is judged by monotone presence (see `presence_monotone`)
+    expiry: bool,
 }
 
 enum RunResult {
@@ -317,7 +346,16 @@ fn run_once(sc: &Scenario, ch: &mut Chooser) -> (RunResult, Vec<String>) {
     polex::with_runtime(|rt| {
         rt.block_on(async {
             let (k, q) = keys_for(sc.shards, sc.home);
-            let mut node = Node::new(sc.shards, VerifTime::new(1_000_000));
+            let clock = VerifTime::new(1_000_000);
+            let mut node = Node::new(sc.shards, clock.clone());
+            if sc.expiry {
+                let _ = node.exec(&subst("SET K v PX 1000", &k, &q)).await;
+                node.sched.advance_left = 1;
+                node.sched.advance_by = Duration::from_millis(1);
+                node.sched.harness_clock = Some((clock.0.clone(), 2_000));
+                let st = node.state.clone();
+                node.sched.add("evictor", Box::pin(async move { let _ = st.evict_expired_all_shards().await; }), false);
+            }
             if sc.stall {
                 node.sched.advance_left = 1;
                 node.sched.advance_by = Duration::from_secs(2);
@@ -339,6 +377,9 @@ fn run_once(sc: &Scenario, ch: &mut Chooser) -> (RunResult, Vec<String>) {
                     // the same total order (a stalled clock would age the TTL, so that group reads no TTL)
                     let t_end = node.sched.step_counter.load(Ordering::SeqCst) + 1;
                     for (i, o) in OBSERVER.iter().enumerate() {
+                        if sc.expiry && !(o.starts_with("GET K") || o.starts_with("TYPE K")) {
+                            continue;
+                        }
                         if sc.stall && o.starts_with("TTL") {
                             continue;
                         }
@@ -378,7 +419,7 @@ fn paths_of(sc: &Scenario) -> String {
 }
 
 fn scenario_json(sc: &Scenario, schedule: &[u32]) -> serde_json::Value {
-    json!({"shards": sc.shards, "conn": sc.conn, "stall": sc.stall, "home": if sc.home == usize::MAX { -1 } else { sc.home as i64 }, "programs": sc.programs.iter().map(|p| p.iter().map(|o| OPS[*o]).collect::<Vec<_>>()).collect::<Vec<_>>(), "schedule": schedule})
+    json!({"shards": sc.shards, "conn": sc.conn, "stall": sc.stall, "expiry": sc.expiry, "home": if sc.home == usize::MAX { -1 } else { sc.home as i64 }, "programs": sc.programs.iter().map(|p| p.iter().map(|o| OPS[*o]).collect::<Vec<_>>()).collect::<Vec<_>>(), "schedule": schedule})
 }
 
 /// All multisets of `clients` programs of length `len` over `alphabet` (clients are symmetric).
@@ -390,7 +431,7 @@ fn scenarios(shards: usize, clients: usize, len: usize, alphabet: &[usize], conn
     let mut out = Vec::new();
     fn rec(programs: &[Vec<usize>], clients: usize, start: usize, cur: &mut Vec<Vec<usize>>, out: &mut Vec<Scenario>, shards: usize) {
         if cur.len() == clients {
-            out.push(Scenario { shards, programs: cur.clone(), conn: false, stall: false, home: usize::MAX });
+            out.push(Scenario { shards, programs: cur.clone(), conn: false, stall: false, home: usize::MAX, expiry: false });
             return;
         }
         for i in start..programs.len() {
@@ -420,7 +461,7 @@ fn main() {
             .map(|p| p.as_array().unwrap().iter().map(|o| OPS.iter().position(|x| *x == o.as_str().unwrap()).expect("op in alphabet")).collect())
             .collect();
         let sc = Scenario { shards: r["shards"].as_u64().unwrap() as usize, programs, conn: r["conn"].as_bool().unwrap_or(false), stall: r["stall"].as_bool().unwrap_or(false),
-            home: r["home"].as_i64().filter(|h| *h >= 0).map(|h| h as usize).unwrap_or(usize::MAX) };
+            home: r["home"].as_i64().filter(|h| *h >= 0).map(|h| h as usize).unwrap_or(usize::MAX), expiry: r["expiry"].as_bool().unwrap_or(false) };
         let schedule: Vec<u32> = r["schedule"].as_array().unwrap().iter().map(|x| x.as_u64().unwrap() as u32).collect();
         let mut ch = polex::replay_prefix(&schedule);
         let (res, trace) = run_once(&sc, &mut ch);
@@ -433,7 +474,7 @@ fn main() {
             }
             RunResult::Done(h) => {
                 println!("history: {}", hist_key(&h));
-                if linearizable(&h) {
+                if if sc.expiry { presence_monotone(&h) } else { linearizable(&h) } {
                     println!("replay: linearizable, no violation");
                     std::process::exit(0);
                 }
@@ -482,6 +523,10 @@ fn main() {
         ("every home: 2clients x 2ops single-key paths, 3 shards, K homed on each shard", 3, 2, 2, vec![1, 4, 5, 6, 9], NONE, NONE),
         ("every home: 2clients x 1op all paths, 5 shards, K homed on each shard", 5, 2, 1, all.clone(), NONE, NONE),
         ("every home: CONN 2 connections x 2 pipelined commands, 3 shards, K homed on each shard", 3, 2, 2, vec![0, 1, 9], NONE, NONE),
+        // a key that expires while clients read it: K has a 1 s TTL, the node's clock may jump 2 s once anywhere, an eviction
+        // pass (evict_expired_all_shards) runs next to 2 clients x 2 reads over every read path; once a read has seen K gone, no
+        // later read may see it again
+        ("expiry: every home, 2clients x 2 reads of a key whose deadline passes, eviction pass alongside, 2 shards", 2, 2, 2, if thorough { vec![0, 3, 5, OPS.iter().position(|o| *o == "X EXISTS K").unwrap(), OPS.iter().position(|o| *o == "X TTL K").unwrap()] } else { vec![3, 5, OPS.iter().position(|o| *o == "X EXISTS K").unwrap(), OPS.iter().position(|o| *o == "X TTL K").unwrap()] }, NONE, NONE),
     ];
     if thorough {
         groups.push(("3clients x 1op, 1 shard", 1, 3, 1, all.clone(), NONE, NONE));
@@ -503,7 +548,12 @@ fn main() {
                 s.stall = true;
             }
         }
-        if label.starts_with("every home") {
+        if label.starts_with("expiry") {
+            for s in scs.iter_mut() {
+                s.expiry = true;
+            }
+        }
+        if label.starts_with("every home") || label.starts_with("expiry") {
             scs = (0..shards).flat_map(|h| scs.iter().cloned().map(move |mut s| { s.home = h; s })).collect();
         }
         let deadline = Instant::now() + per_group;
@@ -539,7 +589,7 @@ fn main() {
                         RunResult::Done(h) => {
                             let key = hist_key(&h);
                             distinct_reply_vectors.insert(h.iter().map(|s| s.reply.clone()).collect::<Vec<_>>().join("|"));
-                            let ok = *memo.entry(key.clone()).or_insert_with(|| linearizable(&h));
+                            let ok = *memo.entry(key.clone()).or_insert_with(|| if sc.expiry { presence_monotone(&h) } else { linearizable(&h) });
                             if !ok {
                                 rep.violation(
                                     format!("non-linearizable paths={}", paths_of(sc)),
